@@ -280,3 +280,13 @@ theorem C02_refreshVec_components (box d : Rat × Rat × Rat) :
       (refreshWrap box.1 d.1, refreshWrap box.2.1 d.2.1, refreshWrap box.2.2 d.2.2) := rfl
 
 end Sympler.Verlet
+
+namespace Sympler.Verlet
+open Sympler.Gen.Verlet
+
+/-- the scan state of the generated source is what the model `scan` assumes: `max_disp` and `max2` start at 0 and are
+declared BEFORE the loop over colours, i.e. the list of magnitudes scanned is the concatenation over all species
+(resetting them per species would compare only displacements within one species) -/
+theorem C02_scan_scope : scanStateSharedByAllColours = true ∧ scanInit = (0, 0) := by decide
+
+end Sympler.Verlet
